@@ -20,10 +20,8 @@ PARTIAL = ["reproducibility is proved relative to the oracles (same draws and sa
            "C20_sign_aligned needs positive standard deviations of the member's and the model's scores (forced: corr is 0/0 otherwise); "
            "C20_aligned_member_orthonormal needs every correlation to be non-zero (forced: C20_zero_correlation_zeroes_member / "
            "C20_zeroed_member_not_orthonormal prove what happens otherwise: np.sign(0) = 0 zeroes the mode)",
-           "negative seeds are refused by numpy's default_rng (ValueError) and counted as refusals, not results",
-           "C20_names_full (no dimension addressed by a literal) is stated, not proved: it is false on this tree"]
-REFUTED = ["C20_names_refuted: `whatever its dimension names` fails — bootstrapper.py addresses the sample dimension by the literal \"sample\" "
-           "at 5 sites (C20_literal_sites) and builds the member with the default names; positive obligation kept in Proofs/C20_names.v (F-07)"]
+           "negative seeds are refused by numpy's default_rng (ValueError) and counted as refusals, not results"]
+REFUTED = []
 TRUSTED = ["SVD is an oracle: numpy.linalg.svd of the centred resample of the implementation's own input_data, residuals re-checked in Coq",
            "the random generator is an oracle: index lists reproduced with np.random.default_rng(seed).choice(n, n, replace=True), one call "
            "per member (call count tied to the source by T5boot); a wrong reproduction shows up as a variance disagreement on every member",
@@ -37,6 +35,7 @@ FIELD = {1: "shapes / index list", 2: "svd factorisation of the centred resample
          5: "explained variance", 6: "total variance", 7: "components (aligned)", 8: "scores (aligned)", 9: "alignment sign is not +-1",
          10: "aligned scores correlate negatively with the model's", 11: "scores on resampled rows differ from the member's own scores"}
 
+# the repair of F-07 (applied upstream; kept so that a regression replays with its remedy)
 PATCH = """--- a/xeofs/validation/bootstrapper.py
 +++ b/xeofs/validation/bootstrapper.py
 @@ -59,7 +59,7 @@
@@ -416,7 +415,7 @@ def name_test(ctx, rng):
                 site = "literal-sample-name" if names["sample_name"] != "sample" else "member-default-feature-name"
                 ctx.violation("C20:%s" % site,
                               "EOFBootstrapper(n_bootstraps=2, seed=3).fit(model) fails for a fitted EOF(%s) on a %s: %s: %s — "
-                              "bootstrapper.py addresses the sample dimension by the literal \"sample\" and builds the member with the default names"
+                              "the bootstrapper does not go through the model's sample_name / feature_name (see C20_names, Gen/T5boot.v boot_literal_dims)"
                               % (", ".join("%s=%r" % kv for kv in names.items()), struct, type(e).__name__, str(e)[:200]),
                               dict(kind="names", cfg=cfg, error=C.errkind(e), msg=str(e)[:300], proposed_patch=PATCH))
                 continue
